@@ -2,6 +2,7 @@ package fscache
 
 import (
 	"os"
+	"path"
 	"sort"
 	"sync"
 
@@ -108,12 +109,35 @@ func (c *Cache) Commit() (err error) {
 // Copy duplicate a file or directory
 func (c *Cache) srcFS(p string) (srcFS filesystem.Filespace, src string) {
 	src = varutil.CleanPath(p)
-	if c.bufferFS.IsExist(src) {
+	if c.bufferFS.IsExist(src) || c.removed(src) {
 		srcFS = c.bufferFS
 	} else {
 		srcFS = c.remoteFS
 	}
 	return srcFS, src
+}
+
+// removed reports whether the node was removed through the cache (the node or
+// one of its parent directories is in a remove journal) and has not been
+// created again in the buffer. Such a node must not be read from the remote.
+func (c *Cache) removed(src string) bool {
+	if c.bufferFS.IsExist(src) {
+		return false
+	}
+	c.changes.removeAllMU.RLock()
+	defer c.changes.removeAllMU.RUnlock()
+	c.changes.removeMU.RLock()
+	defer c.changes.removeMU.RUnlock()
+	for {
+		if c.changes.remove[src] || c.changes.removeAll[src] {
+			return true
+		}
+		parent := path.Dir(src)
+		if parent == src || parent == "." || parent == "/" {
+			return false
+		}
+		src = parent
+	}
 }
 
 // Copy duplicate a file or directory
@@ -161,20 +185,26 @@ func (c *Cache) ReadDir(src string) (result []os.FileInfo, err error) {
 		remoteErr, bufferErr   error
 	)
 	src = varutil.CleanPath(src)
-	remoteDirs, remoteErr = c.remoteFS.ReadDir(src)
+	if c.removed(src) {
+		remoteErr = goaterr.Errorf("%s was removed", src)
+	} else {
+		remoteDirs, remoteErr = c.remoteFS.ReadDir(src)
+	}
 	bufferDirs, bufferErr = c.bufferFS.ReadDir(src)
 	if remoteErr != nil && bufferErr != nil {
 		return nil, goaterr.ToError(goaterr.AppendError(nil, remoteErr, bufferErr))
 	}
-	result = remoteDirs
+	result = append(result, bufferDirs...)
 ReadDirLoop:
-	for _, bnode := range bufferDirs {
-		for _, cnode := range remoteDirs {
+	for _, cnode := range remoteDirs {
+		for _, bnode := range bufferDirs {
 			if bnode.Name() == cnode.Name() {
 				continue ReadDirLoop
 			}
 		}
-		result = append(result, bnode)
+		if !c.removed(varutil.CleanPath(src + "/" + cnode.Name())) {
+			result = append(result, cnode)
+		}
 	}
 	return result, nil
 }
@@ -182,19 +212,28 @@ ReadDirLoop:
 // IsExist return true if node exist
 func (c *Cache) IsExist(src string) bool {
 	src = varutil.CleanPath(src)
-	return c.bufferFS.IsExist(src) || c.remoteFS.IsExist(src)
+	if c.bufferFS.IsExist(src) {
+		return c.bufferFS.IsExist(src)
+	}
+	return !c.removed(src) && c.remoteFS.IsExist(src)
 }
 
 // IsFile return true if node exist and is a file
 func (c *Cache) IsFile(src string) bool {
 	src = varutil.CleanPath(src)
-	return c.bufferFS.IsFile(src) || c.remoteFS.IsFile(src)
+	if c.bufferFS.IsExist(src) {
+		return c.bufferFS.IsFile(src)
+	}
+	return !c.removed(src) && c.remoteFS.IsFile(src)
 }
 
 // IsDir return true if node exist and is a directory
 func (c *Cache) IsDir(src string) bool {
 	src = varutil.CleanPath(src)
-	return c.bufferFS.IsDir(src) || c.remoteFS.IsDir(src)
+	if c.bufferFS.IsExist(src) {
+		return c.bufferFS.IsDir(src)
+	}
+	return !c.removed(src) && c.remoteFS.IsDir(src)
 }
 
 // MkdirAll create directory recursively
